@@ -535,9 +535,48 @@ def run(ctx):
         if v != dtv.timetz():
             ctx.fail("time wire round trip differs", {"value": t}, repr(v), repr(dtv.timetz()))
     restricted_simple_types(ctx)
+    attribute_values(ctx)
     ctx.sample({"parse": cases[5]})
     ctx.sample({"parse": cases[len(cases) // 2]})
     ctx.sample({"decimal": str(vals[0]) if vals else None})
+
+
+def attribute_values(ctx):
+    """The same conversions hold for XML ATTRIBUTES of those types, in both directions - falsy values (false, 0, 0.0,
+    the empty string) included."""
+    import decimal
+    types = [("ab", "boolean"), ("ai", "int"), ("ad", "decimal"), ("af", "double"), ("as", "string")]
+    attrs = "".join('<xsd:attribute name="%s" type="xsd:%s"/>' % t for t in types)
+    schema = ('<xsd:complexType name="O"><xsd:sequence/>%s</xsd:complexType><xsd:element name="f"><xsd:complexType>'
+              '<xsd:sequence><xsd:element name="o" type="x:O"/></xsd:sequence></xsd:complexType></xsd:element>'
+              '<xsd:element name="fResponse"><xsd:complexType><xsd:sequence><xsd:element name="o" type="x:O"/>'
+              '</xsd:sequence></xsd:complexType></xsd:element>' % attrs)
+    w = wsdlkit.wsdl_doc(schema, "f", "fResponse")
+    req, rep = wsdlkit.client(w, nosend=True), wsdlkit.client(w)
+    cases = [("ab", "false", False), ("ab", "0", False), ("ab", "true", True), ("ab", "1", True), ("ai", "0", 0),
+             ("ai", "-000", 0), ("ai", "42", 42), ("ad", "0.00", decimal.Decimal("0.00")), ("ad", "1.5", decimal.Decimal("1.5")),
+             ("af", "0.0", 0.0), ("af", "-0", -0.0), ("af", "2.5", 2.5), ("as", "", ""), ("as", "0", "0")]
+    for name, lex, value in cases:
+        meta = {"stream": "attribute-values", "attribute": name, "text": lex}
+        ctx.case(common.canon(meta), True)
+        doc = ('<e:Envelope xmlns:e="%s"><e:Body><fResponse xmlns="%s"><o %s="%s"/></fResponse></e:Body></e:Envelope>'
+               % (xmlread.ENV11, wsdlkit.TNS, name, lex)).encode()
+        try:
+            o = rep.service.f({}, __inject={"reply": doc})
+            got = getattr(o, "_" + name, "absent") if o is not None else "no object"
+        except Exception as e:
+            got = repr(e)
+        ok = (isinstance(got, str) and str(got) == value) if isinstance(value, str) else \
+            (type(got) is type(value) and got == value)
+        if not ok and not (name == "as" and lex == "" and got in (None, "absent", "no object")):
+            ctx.fail("an attribute value of a reply is not decoded by its XSD type", meta, repr(got), repr(value))
+        env = wsdlkit.envelope_bytes(req.service.f({"_" + name: value}))
+        node = xmlread.find1(xmlread.find1(xmlread.find1(xmlread.parse(env), "Body"), "f"), "o")
+        sent = None if node is None else node["attrs"].get((None, name))
+        ok = sent is not None and (sent == lex or (name in ("ad", "af", "ai") and float(sent) == float(lex)) or
+                                   (name == "ab" and sent in (("true", "1") if value else ("false", "0"))))
+        if not ok:
+            ctx.fail("an attribute value is not sent in the lexical form of its XSD type", meta, sent, lex)
 
 
 def restricted_untranslated():
